@@ -36,12 +36,20 @@ TRUSTED = ['harness/props/c20.py (layout/assignment generators, yaml+toml render
            'harness/extract_c20.py (ast -> Generated/ConfigProps.lean)',
            'ruamel.yaml / tomllib parse the rendered files to the payload the case declares '
            '(validated by the correspondence itself)']
-ASSUMPTIONS = ['posix/XDG branch of pypyr.platform only (macOS default dir is in the model, Windows/Android are not)',
-               'config files are ASCII and decode identically under every default_encoding value in play: '
+ASSUMPTIONS = ['pathlib joins paths the posix way: the macOS and Windows branches of pypyr.platform are tied on this posix host '
+               'with sys.platform / os.pathsep patched in the child (ntpath is not modelled)',
+               'an environment with $ANDROID_DATA=/data and $ANDROID_ROOT=/system declares the platform to be Android (that is how '
+               'pypyr decides it): the Android branch (jnius / sys.path scan for the app folder; OSError out of init() when there is none) '
+               'is outside the judged domain - the monitor gives no verdict on such cases (counted), only model == implementation is '
+               'checked on them (without jnius)',
+               'config files decode identically under every default_encoding value in play: '
                'load_yaml opens later files with the *current* default_encoding, which the model does not follow',
                'environment values are ASCII; directory names are clean paths (no trailing/double slash)',
-               'a dict prop (vars/shortcuts) whose value is not a mapping is modelled only for None/bool/int/float '
-               '(TypeError) and only when it is the single dict prop of that file']
+               'a dict prop (vars/shortcuts) value is a mapping, a list whose elements are [str, value] pairs or values '
+               'dict.update refuses, a string, None, a bool or a number; the exception CLASS a parser raises for a file that does '
+               'not parse is declared by the case and checked against the implementation',
+               'the process runs as root: a file without read permission cannot be produced (PermissionError is an OSError like '
+               'the ones that are produced: a directory, a path through a regular file, a symlink loop)']
 
 S = impl_c20.ROOT
 
@@ -119,6 +127,16 @@ def toml_text(table, mode='table'):
     return tomli_w.dumps(doc)
 
 
+def rawfile(path, payload, text=None, hexbytes=None, fskind=None):
+    """A case file whose content is given literally (syntax errors, undecodable bytes, a directory in its place)."""
+    f = {'path': path, 'text': text if text is not None else '', 'payload': payload}
+    if hexbytes is not None:
+        f['hex'] = hexbytes
+    if fskind is not None:
+        f['fskind'] = fskind
+    return f
+
+
 def mkfile(path, obj, style=0, toml_mode='table'):
     """A case file entry: the path, the text written, the payload it denotes."""
     if path == 'pyproject.toml':
@@ -162,7 +180,8 @@ def layout(commons=('c1', 'c2'), user='xh', glob=None, local=None, skip=None, ex
     else:
         order = list(reversed(common_files)) + [user_file]
     order += ['pyproject.toml', local_file]
-    spec = {'skip': skip is not None and skip.lower() in TRUTHY,
+    spec = {'android': env.get('ANDROID_DATA') == '/data' and env.get('ANDROID_ROOT') == '/system',
+            'skip': skip is not None and skip.lower() in TRUTHY,
             'global': f'{S}/{glob}' if glob is not None else None,
             'order': order,
             'ignored': (common_files + [user_file]) if glob is not None else []}
@@ -408,6 +427,181 @@ def env_cases(rng, res, quick):
     return out
 
 
+YAML_SYNTAX = [('unclosed-flow', 'json_indent: [1, 2\n', 'ParserError'), ('nested-colon', 'json_indent: b: c\n', 'ScannerError'),
+               ('tab-indent', 'vars:\n\t- 1\n', 'ScannerError'), ('dup-key', 'json_indent: 1\njson_indent: 2\n', 'DuplicateKeyError'),
+               ('two-docs', 'json_indent: 1\n---\njson_indent: 2\n', 'ComposerError'), ('at-sign', 'json_indent: @x\n', 'ScannerError'),
+               ('nul-char', 'json_indent: 1\x00\n', 'ReaderError'), ('unclosed-quote', 'default_group: "x\n', 'ScannerError'),
+               ('unknown-alias', 'vars: *nope\n', 'ComposerError'), ('bad-indent', 'json_indent: 1\n  no_cache: true\n', 'ScannerError'),
+               ('unclosed-brace', '{json_indent: 1\n', 'ParserError'), ('bad-directive', '%YAML 9.9\n---\njson_indent: 1\n', 'ParserError')]
+TOML_SYNTAX = [('no-value', 'tool = \n', 'TOMLDecodeError'), ('dup-key', '[tool.pypyr]\njson_indent = 1\njson_indent = 2\n', 'TOMLDecodeError'),
+               ('unclosed-table', '[tool.pypyr\njson_indent = 1\n', 'TOMLDecodeError'), ('yaml-in-toml', 'tool:\n  pypyr: 1\n', 'TOMLDecodeError')]
+UNDECODABLE = '6a736f6e5f696e64656e743a2031202320fffe0a'       # 'json_indent: 1 # \xff\xfe\n'
+
+
+def syntax_cases(rng, res, quick):
+    """files that do not PARSE (not merely of the wrong shape), files that cannot be opened although something is there"""
+    out = []
+    yaml_locs = ['common', 'common-low', 'user', 'global', 'local']
+    k = 0
+    for name, text, exc in YAML_SYNTAX + [('undecodable', None, 'UnicodeDecodeError')]:
+        for loc in yaml_locs:
+            k += 1
+            if quick and k % 3 != 0:
+                continue
+            glob = 'g.yaml' if loc == 'global' else None
+            env, spec = layout(commons=('c1', 'c2'), user='xh', glob=glob)
+            target = WHERE[loc]
+            others = [p for p in spec['order'] if p != target]
+            good = assign(rng, rng.sample(others, min(len(others), rng.choice([1, 2, 3]))))
+            for m in good.values():       # the bytes must be undecodable under EVERY encoding in play: load_yaml opens a
+                m.pop('default_encoding', None)      # file with the default_encoding the lower files have set by then
+            case = build_case(f'syntax:{name}@{loc}', env, spec, {p: good[p] for p in spec['order'] if p in good}, rng)
+            case['files'].append(rawfile(target, {'kind': 'parse', 'exc': exc}, text=text,
+                                         hexbytes=UNDECODABLE if text is None else None))
+            out.append(case)
+    for name, text, exc in TOML_SYNTAX + [('undecodable', None, 'UnicodeDecodeError')]:
+        env, spec = layout()
+        good = assign(rng, [f'{S}/c1/pypyr/config.yaml', 'pypyr-config.yaml'])
+        case = build_case(f'syntax:toml-{name}', env, spec, good, rng)
+        case['files'].append(rawfile('pyproject.toml', {'kind': 'parse', 'exc': exc}, text=text,
+                                     hexbytes='746f6f6c203d2022fffe220a' if text is None else None))
+        out.append(case)
+    # a lower file is rejected with a ConfigError BEFORE the file that does not parse is reached - and the other way round
+    env, spec = layout()
+    case = build_case('syntax:nonmapping-low-syntax-high', env, spec, {f'{S}/c2/pypyr/config.yaml': [1, 2]})
+    case['files'].append(rawfile('pypyr-config.yaml', {'kind': 'parse', 'exc': 'ScannerError'}, text='a: b: c\n'))
+    out.append(case)
+    env, spec = layout()
+    case = build_case('syntax:syntax-low-nonmapping-high', env, spec, {'pypyr-config.yaml': [1, 2]})
+    case['files'].append(rawfile(f'{S}/c2/pypyr/config.yaml', {'kind': 'parse', 'exc': 'ScannerError'}, text='a: b: c\n'))
+    out.append(case)
+    # pyproject.toml whose top-level `tool` is not a table
+    for name, text, payload in (('tool-int', 'tool = 1\n', {'kind': 'toolnottable'}), ('tool-str', 'tool = "x"\n', {'kind': 'toolnottable'}),
+                                ('tool-list', 'tool = [1]\n', {'kind': 'toolnottable'}), ('tool-zero', 'tool = 0\n', {'kind': 'none'}),
+                                ('tool-empty-str', 'tool = ""\n', {'kind': 'none'}), ('tool-false', 'tool = false\n', {'kind': 'none'}),
+                                ('pypyr-int', '[tool]\npypyr = 5\n', {'kind': 'nonmap', 'truthy': True}),
+                                ('pypyr-empty-list', '[tool]\npypyr = []\n', {'kind': 'nonmap', 'truthy': False}),
+                                ('pypyr-str', '[tool]\npypyr = "x"\n', {'kind': 'nonmap', 'truthy': True})):
+        env, spec = layout()
+        good = assign(rng, [f'{S}/xh/pypyr/config.yaml', 'pypyr-config.yaml'])
+        case = build_case(f'syntax:pyproject-{name}', env, spec, good, rng)
+        case['files'].append(rawfile('pyproject.toml', payload, text=text))
+        out.append(case)
+    # something is there, but open() raises an OSError: like an absent file ($PYPYR_CONFIG_GLOBAL: "could not open")
+    for fskind in ('dir', 'loop', 'under-file'):
+        for loc in ('common', 'user', 'global', 'pyproject', 'local'):
+            if fskind == 'under-file' and loc in ('pyproject', 'local', 'global'):
+                continue
+            glob = 'g.yaml' if loc == 'global' else None
+            env, spec = layout(commons=('c1', 'c2'), user='xh', glob=glob)
+            target = WHERE[loc]
+            others = [p for p in spec['order'] if p != target]
+            good = assign(rng, others)
+            case = build_case(f'unreadable:{fskind}@{loc}', env, spec, {p: good[p] for p in spec['order'] if p in good}, rng)
+            case['files'].append(rawfile(target, {'kind': 'unreadable', 'what': fskind}, fskind=fskind))
+            out.append(case)
+    return out
+
+
+def dictprop_cases(rng, res, quick):
+    """values of vars / shortcuts that are not mappings; both dict props in one file with one of them refused,
+    under several $PYTHONHASHSEED values (the iteration order of `keys & dict_props`)"""
+    out = []
+    low = {'json_indent': 5, 'vars': {'a': 1, 'z': 0}, 'shortcuts': {'s0': {'pipeline_name': 'p0'}}}
+    vals = [('pairs', [['a', 2], ['b', 3]]), ('pairs-empty', []), ('pairs-short', [['a', 2], ['b']]), ('pairs-long', [['a', 2], ['b', 1, 2]]),
+            ('pairs-then-int', [['a', 2], 5]), ('pairs-then-none', [['a', 2], None]), ('str', 'ab'), ('str-one', 'x'), ('str-empty', ''),
+            ('none', None), ('int', 5), ('false', False), ('true', True)]
+    for prop in DICTS:
+        for name, v in vals:
+            if quick and prop == 'shortcuts' and name not in ('pairs', 'str', 'none', 'pairs-short'):
+                continue
+            env, spec = layout()
+            out.append(build_case(f'dictprop:{prop}={name}', env, spec,
+                                  {f'{S}/c1/pypyr/config.yaml': low, 'pypyr-config.yaml': {'json_indent': 6, prop: v, 'default_group': 'g'}}))
+    # both dict props in the file, one refused: which state is left depends on the hash order of the two names
+    seeds = [0, 1, 2, 3] if quick else list(range(12))
+    for bad_prop, good_prop in (('vars', 'shortcuts'), ('shortcuts', 'vars')):
+        for name, v in (('int', 5), ('str', 'ab'), ('pairs-short', [['a', 2], ['b']])):
+            for seed in seeds + ['random']:
+                good_val = {'s9': {'pipeline_name': 'p9'}} if good_prop == 'shortcuts' else {'v9': 9}
+                env, spec = layout()
+                case = build_case(f'dictprop:both:{bad_prop}={name}:seed={seed}', env, spec,
+                                  {f'{S}/c1/pypyr/config.yaml': low,
+                                   'pypyr-config.yaml': {'json_indent': 6, bad_prop: v, good_prop: good_val}})
+                if seed != 'random':
+                    case['hashseed'] = seed
+                out.append(case)
+    for seed in seeds[:3]:     # both refused: which one is named depends on the order
+        env, spec = layout()
+        case = build_case(f'dictprop:both-bad:seed={seed}', env, spec, {'pypyr-config.yaml': {'vars': 5, 'shortcuts': 'ab', 'json_indent': 9}})
+        case['hashseed'] = seed
+        out.append(case)
+    return out
+
+
+def platform_cases(rng, res, quick):
+    """get_platform_dir_finder: Windows (; and $ALLUSERSPROFILE), macOS; the $ANDROID_* test comes first on every OS - an
+    environment that passes it is outside the judged domain: model == implementation only"""
+    out = []
+    everywhere = [f'{S}/c1/pypyr/config.yaml', f'{S}/c2/pypyr/config.yaml', f'{S}/xh/pypyr/config.yaml', 'pyproject.toml', 'pypyr-config.yaml']
+    android = {'ANDROID_DATA': '/data', 'ANDROID_ROOT': '/system'}
+
+    def full(tag, env, spec, platform='posix', only=None, **kw):
+        present = [p for p in dict.fromkeys(spec['order'] + spec['ignored']) if (only is None or p in only) and not p.startswith(('/etc', '/Library', '/data'))]
+        case = build_case(tag, env, spec, assign(rng, present, res), rng)
+        case['platform'] = platform
+        case.update(kw)
+        out.append(case)
+    # 1. the two variables set as on an Android device, on every OS: no app folder -> OSError escapes init()
+    for platform in ('posix', 'macos', 'windows'):
+        env, spec = layout(extra=android)
+        full(f'platform:android-env@{platform}', env, spec, platform)
+    env, spec = layout(extra=android)
+    out.append(dict(build_case('platform:android-env-nofiles', env, spec, {}), platform='posix'))
+    # ... not reached with $PYPYR_CONFIG_GLOBAL or $PYPYR_SKIP_INIT
+    env, spec = layout(extra=android, glob='g.yaml')
+    full('platform:android-env+global', env, spec)
+    env, spec = layout(extra=android, skip='1')
+    full('platform:android-env+skip', env, spec)
+    # ... only THESE values select it
+    for extra in ({'ANDROID_DATA': '/data'}, {'ANDROID_ROOT': '/system'}, {'ANDROID_DATA': '/data/', 'ANDROID_ROOT': '/system'},
+                  {'ANDROID_DATA': '/system', 'ANDROID_ROOT': '/data'}, {'ANDROID_DATA': '', 'ANDROID_ROOT': ''}):
+        env, spec = layout(extra=extra)
+        full(f'platform:android-env-other:{sorted(extra.items())}', env, spec)
+    # ... with an app folder on sys.path the finder names ONE file, as common and as user file
+    for sp in (['/data/data/org.test.app/files'], ['/x', '/data/user/0/org.test.app/files/lib', '/data/data/second/files']):
+        adir = sp[-2 if len(sp) > 1 else 0].split('/files')[0]
+        env, spec = layout(extra=android)
+        spec = dict(spec, order=[f'{adir}/shared_prefs/pypyr/config.yaml'] * 2 + spec['order'][-2:],
+                    ignored=[p for p in spec['order'][:-2]])
+        full(f'platform:android-with-app-folder:{len(sp)}', env, spec, only=everywhere, android_dir=adir, syspath_extra=sp)
+    # 2. Windows: ';' separates $XDG_CONFIG_DIRS, ':' does not; the default common directory is $ALLUSERSPROFILE
+    env, spec = layout(commons=('c1', 'c2'))
+    env['XDG_CONFIG_DIRS'] = f'{S}/c1;{S}/c2'
+    full('platform:windows-dirs', env, spec, 'windows')
+    env, spec = layout(commons=('c1', 'c2', 'c3'))
+    env['XDG_CONFIG_DIRS'] = f'{S}/c1;;{S}/c2; ;{S}/c3;'
+    full('platform:windows-dirs-blank-entries', env, spec, 'windows')
+    env, spec = layout(commons=('c1',))
+    env['XDG_CONFIG_DIRS'] = f'{S}/c1;{S}/c2'          # on posix this is ONE odd directory name
+    spec['order'] = [f'{S}/c1;{S}/c2/pypyr/config.yaml'] + spec['order'][1:]
+    full('platform:posix-semicolon-is-no-separator', env, spec, 'posix', only=everywhere)
+    for raw in (None, ''):
+        env, spec = layout(commons=None, dirs_raw=raw, extra={'ALLUSERSPROFILE': f'{S}/all'})
+        spec['order'] = [f'{S}/all/pypyr/config.yaml'] + spec['order']
+        full(f'platform:windows-allusersprofile:{raw!r}', env, spec, 'windows')
+        env, spec = layout(commons=None, dirs_raw=raw, extra={'ALLUSERSPROFILE': f'{S}/all'})
+        spec['order'] = ['/Library/Application Support/pypyr/config.yaml'] + spec['order']
+        spec['ignored'] = [f'{S}/all/pypyr/config.yaml']
+        full(f'platform:macos-default:{raw!r}', env, spec, 'macos')
+    env, spec = layout(commons=None)
+    spec['order'] = ['C:/ProgramData/pypyr/config.yaml'] + spec['order']     # a RELATIVE path on this host
+    full('platform:windows-default', env, spec, 'windows')
+    env, spec = layout(commons=('c1', 'c2'))
+    full('platform:macos-dirs', env, spec, 'macos')
+    return out
+
+
 def random_case(rng, res, i):
     n_common = rng.choice([1, 2, 2, 3, 3])
     commons = tuple(rng.sample(['c1', 'c2', 'c3', 'c4'], n_common))
@@ -550,8 +744,9 @@ def all_cases(env, res):
     cases = subset_cases(rng, res, False) + subset_cases(rng, res, True)
     cases += malformed_cases(rng, res, env.quick)
     cases += env_cases(rng, res, env.quick)
+    cases += syntax_cases(rng, res, env.quick) + dictprop_cases(rng, res, env.quick) + platform_cases(rng, res, env.quick)
     hist = history_cases(rng, res, env.quick)
-    n_random = env.n(max(0, 160 - len(cases)), max(0, 3000 - len(cases) - 64))
+    n_random = env.n(40, max(0, 3000 - len(cases) - 64))
     if not env.quick:   # a second, differently assigned pass over the subsets
         cases += subset_cases(rng, res, False) + subset_cases(rng, res, True)
     cases += [random_case(rng, res, i) for i in range(n_random)]
@@ -566,7 +761,7 @@ def model_request(case):
     env = case['env']
     return ('config.init', {
         'env': {'vars': [[k, v] for k, v in env.items() if k != 'HOME'], 'home': env.get('HOME', f'{S}/home'),
-                'platform': 'posix'},
+                'platform': case.get('platform', 'posix'), 'androidDir': case.get('android_dir')},
         'files': [[f['path'], f['payload']] for f in case['files']]})
 
 
@@ -612,7 +807,7 @@ def norm_model(m):
     err = m['err']
     if err is not None:
         e = {'type': err['name'], 'kind': err['kind'] if err['kind'] != 'dictUpdate' else 'other'}
-        if 'path' in err:
+        if 'path' in err and err['kind'] != 'parse':     # a parser's message does not name the file reliably
             e['path'] = err['path']
         if 'keys' in err:
             e['keys'] = sorted(err['keys'])
@@ -673,6 +868,10 @@ def judge_init(spec, case_files, base, obs, base_name):
     call* prescribes (skip / global / order / ignored); base: the settings of the object before the call
     (the defaults, for a fresh object); obs: what the object shows afterwards.
     -> None (holds / no opinion) or (detail, signature)."""
+    if spec.get('android'):
+        # $ANDROID_DATA=/data and $ANDROID_ROOT=/system are how pypyr decides it runs ON Android: such an environment
+        # declares the platform to be Android, which is outside the judged domain (model == implementation is still checked)
+        return None
     files = {f['path']: f['payload'] for f in case_files}
     defaults = base
     got = {k: dec(v) for k, v in obs['props'].items()}
@@ -694,26 +893,26 @@ def judge_init(spec, case_files, base, obs, base_name):
     if stray:
         return (f'init opened {stray}, which $PYPYR_CONFIG_GLOBAL replaces', {'clause': 'global_replaces_common_and_user', 'kind': 'opened'})
     order = list(spec['order'])
-    # anything that must be rejected with a config error
+    # a file that is there but cannot be opened (a directory in its place, ...) is a file that is not there
+    unopenable = {p for p, pl in files.items() if pl['kind'] == 'unreadable'}
+    files = {p: pl for p, pl in files.items() if p not in unopenable}
+    # anything that must be rejected with a config error: the first such file in look-up order decides
     must_reject = None
     if spec['global'] and spec['global'] not in files:
-        must_reject = ('global_must_exist', '$PYPYR_CONFIG_GLOBAL names a file that does not exist')
-    for p in order:
-        pl = files.get(p)
-        if pl is None:
-            continue
-        if pl['kind'] == 'map':
-            for k, v in pl['kvs']:
-                if k in DICTS and not (isinstance(v, dict) and 'd' in v):
-                    return None        # dict prop that is not a mapping: the property text is silent
+        must_reject = ('global_must_exist', '$PYPYR_CONFIG_GLOBAL names a file that ' +
+                       ('cannot be opened' if spec['global'] in unopenable else 'does not exist'))
     for p in order:
         pl = files.get(p)
         if pl is None or must_reject:
             continue
+        if pl['kind'] in ('parse', 'toolnottable'):
+            return None            # a file that does not parse: the property text says nothing about it
         if pl['kind'] == 'nonmap':
             must_reject = ('non_mapping_rejected', f"{p} is a {'truthy' if pl['truthy'] else 'falsy'} non-mapping file")
         elif pl['kind'] == 'map' and any(k not in DEFAULTS for k, _ in pl['kvs']):
             must_reject = ('unknown_rejected', f'{p} has an unknown setting')
+        elif pl['kind'] == 'map' and any(k in DICTS and not (isinstance(v, dict) and 'd' in v) for k, v in pl['kvs']):
+            return None            # dict prop that is not a mapping: the property text is silent
     if must_reject:
         clause, why = must_reject
         sig = {'clause': clause}
@@ -835,10 +1034,22 @@ def evaluate(env, res, cases):
         if 'calls' not in i:
             m.pop('calls')
             res.count('calls-not-observable')
+        if mo.get('alt') is not None and canon(m) != canon(i):
+            # `keys & dict_props` is a set: the other iteration order (another $PYTHONHASHSEED) is as good
+            m2 = norm_model({**mo, 'state': mo['alt']['state'], 'err': mo['alt']['err']})
+            if 'calls' not in i:
+                m2.pop('calls')
+            if canon(m2) == canon(i):
+                m = m2
+                res.count('hash-order:vars-before-shortcuts')
+        elif mo.get('alt') is not None and canon(mo['alt']['state']) != canon(mo['state']):
+            res.count('hash-order:shortcuts-before-vars')
         res.count('outcome:' + (i['err']['type'] + '/' + i['err']['kind'] if i['err'] else
                                 ('skipped' if i['skip_init'] else 'ok')))
         res.count(f"files_present:{len(case['files'])}")
         res.count(f"files_loaded:{len(i['loaded'])}")
+        if case['spec'].get('android'):
+            res.count('android-env:outside-the-judged-domain')
         verdict = judge(case, {**i, 'opened': io['steps'][-1].get('opened')})
         if verdict is not None:
             detail, sig = verdict
@@ -913,7 +1124,14 @@ def run(env, res):
                 'pyproject[tool.pypyr], local} existing x $PYPYR_CONFIG_GLOBAL unset / set+existing, each with a '
                 'generated assignment (every scalar and vars/shortcuts key set by 0-3 of the files, file-naming values); '
                 'malformed/benign payloads ([] [1,2] 0 5 "" "text" false true, unknown key alone / with valid keys / '
-                'wrong case / non-str key, empty file, {}) at every location; env spellings of PYPYR_SKIP_INIT, '
+                'wrong case / non-str key, empty file, {}) at every location; files that do not PARSE (12 kinds of YAML syntax error, '
+                'duplicate key, two documents, undecodable bytes; 4 kinds of TOML error; tool = 1 / "x" / [1] / 0 / "") at every location; '
+                'something unopenable in place of a file (directory, symlink loop, path through a regular file) at every location; '
+                'vars / shortcuts given a list of pairs, short / long pairs, a string, None, a number - alone and together with the other '
+                'dict prop under $PYTHONHASHSEED 0..11 and random (both iteration orders of the set are accepted); '
+                '$ANDROID_DATA / $ANDROID_ROOT set as on a device (posix, macOS, Windows; with global / skip; other values; with an app '
+                'folder on sys.path), Windows (; separator, $ALLUSERSPROFILE, C:/ProgramData) and macOS defaults with sys.platform patched; '
+                'env spellings of PYPYR_SKIP_INIT, '
                 'PYPYR_CONFIG_GLOBAL (missing, directory, empty), XDG_CONFIG_DIRS (1-3 dirs, blank entries, duplicates, '
                 'default), XDG_CONFIG_HOME (unset/blank), PYPYR_CONFIG_LOCAL, PYPYR_NO_CACHE/ENCODING/CMD_ENCODING; then '
                 'random layouts. Histories in ONE process: import (singleton built), then changes of PYPYR_SKIP_INIT '
